@@ -17,20 +17,32 @@ after every explored edge; a difference there is reported as model drift, never 
 import bisect, dis, gc, hashlib, inspect, io, os, subprocess, sys
 from tools.lib import sx
 
-CLAIMED = False
+CLAIMED = True
 CONFIG = {'assumptions': [
     'file descriptions are tabulated from freshly opened objects by sequential parsing; ids stand for the '
     'full serialisation of headers, entries (tag, every attribute), line-program entries, CFI entries',
     'a DIE is addressed as get_CU_at(u).get_DIE_from_refaddr(o); generators live in slots',
     'supplementary_dwarfinfo is None; type units (.debug_types) are exercised against the fresh-object '
     'oracle only', ]}
-LEVEL = {'text': 'Machine-checked refinement of a state machine over the caches, object heap, link fields, memo '
-                 'fields, one cursor per stream and generator frames against a stateless reference, for every finite '
-                 'history; the machine is pinned to the code by bounded-exhaustive state exploration and long random '
+LEVEL = {'text': 'Machine-checked refinement of a state machine (caches, object heap with identity, link fields, memo '
+                 'fields, one cursor per stream, generator frames) against a stateless reference: an invariant '
+                 '(cache lists sorted, duplicate-free and parallel; every cached unit/entry/abbreviation table/line '
+                 'program is the pure parse at its key; parent/terminator links true; memo fields equal the pure '
+                 'result) holds initially, and every valid operation EXCEPT entry-tree navigation (get_parent, '
+                 'resuming iter_children/iter_siblings/iter_DIEs) returns the stateless answer and keeps the '
+                 'invariant; lifted by induction to every finite history, with corollaries (answer after any history '
+                 '= answer of a fresh object, repeated queries equal, generator element = offset/index query for '
+                 'units, sections, symbols, dynamic tags). Entry-tree navigation is pinned by correspondence only. '
+                 'The machine is pinned to the code by bounded-exhaustive state exploration and long random '
                  'histories with adversarial repositioning of every stream.',
          'design_ref': '4.10', 'technique': 'Coq proof (invariant + refinement, lifted over fold_left) + '
                                             'extracted-model correspondence on call histories',
-         'note': ''}
+         'note': 'Theorems named *_partial carry the hypothesis plain_ok (valid query, outside the finding, not a '
+                 'navigation step); the full statement (op_ok) lacks the proof for children_next/search_loop/'
+                 'subtree_next/siblings_next. C10_lineprog_file_entry_refuted witnesses the known finding '
+                 '(LineProg after LineEntries on a program with DW_LNE_define_file); the theorems exclude exactly '
+                 'LineProg on such files. wf_file now also demands distinct line-program start offsets and that '
+                 'header name resolution does not read .debug_line.'}
 RULE = ('cases: (file, history, last operation); bfs = every abstract state reachable within the depth bound x every '
         'operation of the alphabet on 3 synthesized files, rnd = random histories on seed binaries with a Disturb '
         'after every call (minimised when failing). distinct = hash(kind, file, history); non-trivial = history '
